@@ -1,17 +1,24 @@
 # /verif/Makefile — builds the Coq development, the extracted model and the driver.
+# `make setup` is serialised with a lock so that concurrent checks do not race.
 SHELL := /bin/bash
-.PHONY: setup coq clean
+.PHONY: setup setup-locked coq gen clean
 MODELS := $(wildcard coq/Model/*.v)
+ENTRIES := $(wildcard ocaml/entries/*.ml) $(wildcard coq/Extract.d/*.txt)
 
-setup: coq build/driver
+setup:
+	@mkdir -p build
+	@flock build/.lock $(MAKE) --no-print-directory setup-locked
 
-coq:
-	cd coq && coq_makefile -f _CoqProject -o Makefile.coq >/dev/null && timeout 3000 $(MAKE) --no-print-directory -f Makefile.coq -j16
+setup-locked: gen coq build/driver
 
-build/driver: $(MODELS) coq/Extract.v ocaml/driver.ml | coq
-	mkdir -p build/extracted
-	cd build/extracted && timeout 900 coqc -Q ../../coq Mokaverif ../../coq/Extract.v
-	cp ocaml/driver.ml build/extracted/driver.ml
+gen:
+	@python3 tools/gen_build.py
+
+coq: gen
+	@cd coq && coq_makefile -f _CoqProject -o Makefile.coq >/dev/null && timeout 3000 $(MAKE) --no-print-directory -f Makefile.coq -j16
+
+build/driver: $(MODELS) $(ENTRIES) ocaml/driver_head.ml ocaml/driver_tail.ml tools/gen_build.py | coq
+	cd build/extracted && timeout 900 coqc -Q ../../coq Mokaverif Extract.v
 	cd build/extracted && ocamlfind ocamlopt -w -a model.mli model.ml driver.ml -o ../driver.new && mv ../driver.new ../driver
 
 clean:
